@@ -27,6 +27,8 @@ type LeaseScenario struct {
 	Renewals int    `json:"renewals,omitempty"`  // death: number of successful renewals before the death
 	After    bool   `json:"after,omitempty"`     // unlockrace: the renewal in flight is applied before Unlock runs
 	Same     bool   `json:"same,omitempty"`      // handoff: the second tenure is on the same Locker object (else on another provider's)
+	Wait10   int    `json:"wait10,omitempty"`    // waithold: the second locker waits this many tenths of a lease in Lock() before it gets the lock
+	OnlyExcl bool   `json:"only_excl,omitempty"` // waithold: judge mutual exclusion only (C01), not the stored record (C05)
 }
 
 var leaseMu sync.Mutex
@@ -86,6 +88,8 @@ func runLease(s LeaseScenario) (info LeaseInfo, v *vstat.Violation, exact bool) 
 		return runUnlockRace(s)
 	case "handoff":
 		return runHandoff(s)
+	case "waithold":
+		return runWaitHold(s)
 	}
 	panic("bad scenario " + s.Kind)
 }
@@ -370,5 +374,61 @@ func runHandoff(s LeaseScenario) (info LeaseInfo, v *vstat.Violation, exact bool
 		return info, vstat.V("lease:not-released", "lease %v: after the second Unlock a contender's TryLock returns false", L), true
 	}
 	c.Unlock()
+	return info, nil, false
+}
+
+// waithold: B waits in Lock() for a good part of a lease (or several) while A holds and renews; then A unlocks, B
+// acquires and holds for 2.5 leases. B's record must be fresh (not dated from the start of its wait): it stays present
+// and unexpired, and a contender stays excluded.
+func runWaitHold(s LeaseScenario) (info LeaseInfo, v *vstat.Violation, exact bool) {
+	L := time.Duration(s.LeaseMs) * time.Millisecond
+	inner := inmem.New()
+	fa, fb, fc := gated.NewFaulty(inner), gated.NewFaulty(inner), gated.NewFaulty(inner)
+	pa, pb, pc := newProvider(fa, L), newProvider(fb, L), newProvider(fc, L)
+	defer pa.Shutdown()
+	defer pb.Shutdown()
+	defer pc.Shutdown()
+	a, b, c := pa.NewLocker("lease"), pb.NewLocker("lease"), pc.NewLocker("lease")
+	ctx := context.Background()
+	t0 := time.Now()
+	a.Lock()
+	got := make(chan time.Time, 1)
+	go func() {
+		b.Lock()
+		got <- time.Now()
+	}()
+	time.Sleep(L * time.Duration(s.Wait10) / 10)
+	select {
+	case <-got:
+		a.Unlock()
+		b.Unlock()
+		return info, vstat.V("lease:contender-acquired-while-held", "lease %v: a second locker's Lock() returned while the first still holds the lock", L), true
+	default:
+	}
+	a.Unlock()
+	var t1 time.Time
+	select {
+	case t1 = <-got:
+	case <-time.After(L + 5*time.Second):
+		return info, vstat.V("lease:never-released", "lease %v: the waiting Lock() did not return within %v of the holder's Unlock", L, L+5*time.Second), false
+	}
+	defer b.Unlock()
+	for time.Since(t1) < 5*L/2 {
+		now := time.Now()
+		if c.TryLock(ctx) {
+			c.Unlock()
+			return info, vstat.V("lease:contender-acquired-while-held", "lease %v: %.2f leases after a locker that had waited %.1f leases acquired the lock, a contender's TryLock succeeded while it is held; storage calls of the holder:%s",
+				L, float64(now.Sub(t1))/float64(L), float64(s.Wait10)/10, describeEvents(fb.Events(), t0)), false
+		}
+		if !s.OnlyExcl {
+			r, err := inner.Get(ctx, leaseKey)
+			if err != nil || r.ExpiresAt == nil || !r.ExpiresAt.After(now) {
+				return info, vstat.V("lease:record-expired-while-held", "lease %v: %.2f leases after a locker that had waited %.1f leases acquired the lock, its record is missing or expired (err=%v); storage calls of the holder:%s",
+					L, float64(now.Sub(t1))/float64(L), float64(s.Wait10)/10, err, describeEvents(fb.Events(), t0)), false
+			}
+		}
+		info.Samples++
+		time.Sleep(L / 5)
+	}
 	return info, nil, false
 }
